@@ -135,6 +135,11 @@ def run(tier):
         others.insert(0, ("w" + os.path.basename(fpath), open(fpath, newline="").read()))
     for j, src in enumerate(TYPER_GAPS):
         others.insert(0, ("gap%d" % j, src))
+    # builtins that stand for a value of a fixed type (line!() is a usize) inside constant aggregates, where the
+    # in-process verifier does not look at element types
+    for bi, ctx in enumerate(["\treport(Site { line: line!(), code: 7 });\n", "\tvar s = Site { line: line!(), code: 1 };\n", "\tvar a: [2]usize = [line!(), 2];\n", "\tvar l: usize = line!();\n",
+                              "\tvar m: [2]Site = [Site { line: 1, code: 2 }, Site { line: line!(), code: 3 }];\n", "\tprint!(\"at \", line!(), \"\\n\");\n", "\tvar n: usize = line!() + 1;\n"]):
+        others.insert(0, ("bl%d" % bi, "struct Site\n{\n\tline: usize,\n\tcode: i32,\n}\nfn report(s: Site)\n{\n}\nfn main() -> i32\n{\n" + ctx + "\treturn: 0\n}\n"))
     impl2 = C.run_harness("tools", others, ck.work + "/others", timeout=1800)
     # the wasm32 target: the unmutated corpus, programs whose IR mentions usize (slices of strings and
     # arrays, lengths, size-of, indexing), and the head of the stream above
@@ -182,6 +187,26 @@ def run(tier):
             mods = [("util.pn", util), ("main.pn", main_)]
             if order: mods.reverse()
             dups.append(("du%d.%d" % (di, order), "".join("//// module %s\n%s" % m for m in mods)))
+    # a PUBLIC function named like a C function the generated code calls keeps its name (D77 only takes the name from
+    # private items): the module that defines it, and the linked program, define it
+    cnames = []
+    for cn in ("write", "snprintf", "abort"):
+        lib = "pub fn %s(value: i32) -> i32\n{\n\tprint!(\"v \", value, \"\\n\");\n\treturn: value + 1\n}\n" % cn
+        main_ = "import \"lib.pn\";\nfn main() -> i32\n{\n\treturn: %s(41)\n}\n" % cn
+        for order in (0, 1):
+            mods = [("lib.pn", lib), ("main.pn", main_)]
+            if order: mods.reverse()
+            cnames.append(("cn%s.%d" % (cn, order), "".join("//// module %s\n%s" % m for m in mods), cn))
+        cnames.append(("cn%s.s" % cn, "pub fn %s(value: i32) -> i32\n{\n\tprint!(\"v\\n\");\n\treturn: value + 1\n}\nfn main() -> i32\n{\n\treturn: %s(41)\n}\n" % (cn, cn), cn))
+    cimpl = C.run_harness("ir", [(a, b) for a, b, _ in cnames], ck.work + "/cnames", timeout=600)
+    for cid, src, cn in cnames:
+        f = cimpl.get(cid, ["missing"])
+        if f[0].startswith("ok"):
+            ir = "".join(f[1:]).replace("\\n", "\n")
+            if not re.search(r"define [^\n]*@%s\(i32" % cn, ir):
+                bad += 1; ck.violation("function-missing:named-like-c-function", "the public function `%s` of the source is not defined under its name in the emitted IR" % cn, src + "\n" + ir[:3000])
+        elif not f[0].startswith("err codes="):
+            ck.violation(C.failure_key(f[0]), "compiler failed: " + f[0][:160], src)
     dimpl = C.run_harness("ir", dups, ck.work + "/dups", timeout=600)
     for cid, src in dups:
         f = dimpl.get(cid, ["missing"])
